@@ -26,8 +26,8 @@ CHECKS["C17"] = dict(technique="TLC-generated command lines (Walk.tla) replayed 
 CHECKS["C05"] = dict(technique="TLC-enumerated layouts (LayoutGen.tla) and literal spellings (Spell.tla) printed by the generator; the tree recorded from Grammar::parse is compared with the printed tree by TLC (TreeCheck.tla)",
              text="Every normal-form tree up to a node bound, random deeper grammars under TLC-enumerated layouts (each single deviating boundary from a blank menu with comments / form feed / tabs / newlines, random multi-deviation layouts), `=`/`::=`, optional final `;`, redundant parentheses, permuted statements, all literal class strings with all dot spellings in four following contexts, and all short description strings are parsed by the real parser; TLC decides printed tree = parsed tree for each.",
              ref="7/C05", note="Bounded tree size / string length; trees are kept in the parser's normal form; spans are not compared (C13).")
-CHECKS["C08"] = dict(technique="TLC evaluates Meaning.Verdicts (declarative well-formedness over the generator's tree) against the recorded exit status and diagnostic class of every run (VerdictCheck.tla)",
-             text="Clean-by-construction grammars, each also with one planted mistake per class at a random site (variant or used definition, behind 0-3 definitions, under any operator; cycles of length 1-4 with and without an entry point), x 4 shells: the command must exit 0 exactly when the specification finds no mistake, and otherwise exit 1 with a diagnostic whose class is one of the mistakes the specification finds; the library's Error variant must agree.",
+CHECKS["C08"] = dict(technique="TLC evaluates Meaning.Verdicts (declarative well-formedness over the generator's tree) against the recorded exit status and diagnostic class of every run (VerdictCheck.tla); mechanism model of the cycle search / resolution order (Resolve.tla, all iteration orders) with trace validation of the instrumented code's steps and verdicts on definition-graph grammars (ResolveTrace.tla)",
+             text="Clean-by-construction grammars, each also with one planted mistake per class at a random site (variant or used definition, behind 0-3 definitions, under any operator; cycles of length 1-4 with and without an entry point; every definition graph over three names and random ones over 4-7), x 4 shells: the command must exit 0 exactly when the specification finds no mistake, and otherwise exit 1 with a diagnostic whose class is one of the mistakes the specification finds; the library's Error variant must agree.",
              ref="7/C08", note="The planted class is only a sanity condition on the oracle; regions the property leaves open (plain non-command definition of a specialised nonterminal, `p (q|r)` inside a word) are skipped or not generated; runs go through main.rs in-process with confirmation by the real binary.")
 CHECKS["C13"] = dict(technique="TLC-chosen layouts (LayoutGen.tla); Syntax.Starts recomputes token positions; every located stderr line is validated by TLC against the tokens of the sort Usage names as culprit (DiagCheck.tla)",
              text="For grammars over a literal pool that needs backslash escapes, with one planted located mistake or warning each, printed under TLC-chosen layouts, every `<path>:<line>:<col>:` line of the command's stderr must be the start of a token of the right sort (reference / definition left-hand side / command name / shell name / literal / first token of the unparsable statement) as computed by the specification from the token list and the blank choices, and the echoed source line must be that line.",
@@ -84,7 +84,7 @@ def main():
         "setup_cmd": "./check build",
         "hooks": {
             "guard": "cargo feature `verif` (off by default)",
-            "enable": "harness crate /verif/harness depends on /repo with features = [\"verif\"] (read-only accessors; event sink complgen::verif filled by dfa_from_regex and do_minimize when enabled); the complgen binary used by the checks is built with the feature OFF",
+            "enable": "harness crate /verif/harness depends on /repo with features = [\"verif\"] (read-only accessors; event sink complgen::verif filled by dfa_from_regex, do_minimize and get_nonterminals_resolution_order when enabled); the complgen binary used by the checks is built with the feature OFF",
             "baseline_off_cmd": "cd /repo && cargo test --workspace --no-fail-fast --offline",
             "source_commits": HOOK_COMMITS,
             "add_only": True,
@@ -98,6 +98,6 @@ def main():
     }
     json.dump(m, open(os.path.join(HERE, "MANIFEST.json"), "w"), indent=1)
 
-HOOK_COMMITS = ["74e87b2", "c98a0aa", "c6f531b"]
+HOOK_COMMITS = ["74e87b2", "c98a0aa", "c6f531b", "30e24d5"]
 if __name__ == "__main__":
     main()
